@@ -258,5 +258,22 @@ func init() {
 		return sink(fr, nil, s)
 	})
 	reg("fmt.Println", func(fr *frame, a []value) value { return sink(fr, nil, fr.i.sprint(fr, a[0].([]value), true)) })
+	// github.com/fatih/color: colour objects are opaque (zero after init); their
+	// print methods are plain sinks (escape sequences are outside every claim)
+	for _, m := range []string{"Fprint", "Fprintln"} {
+		ln := m == "Fprintln"
+		reg("(*github.com/fatih/color.Color)."+m, func(fr *frame, a []value) value {
+			return sink(fr, a[1], fr.i.sprint(fr, a[2].([]value), ln))
+		})
+	}
+	reg("(*github.com/fatih/color.Color).Fprintf", func(fr *frame, a []value) value {
+		s, _ := fr.i.sprintf(fr, mustString(a[2], "color.Fprintf format"), a[3].([]value))
+		return sink(fr, a[1], s)
+	})
+	reg("(*github.com/fatih/color.Color).Sprint", func(fr *frame, a []value) value { return fr.i.sprint(fr, a[1].([]value), false) })
+	reg("(*github.com/fatih/color.Color).Sprintf", func(fr *frame, a []value) value {
+		s, _ := fr.i.sprintf(fr, mustString(a[1], "color.Sprintf format"), a[2].([]value))
+		return s
+	})
 	_ = strconv.Itoa
 }
